@@ -23,11 +23,11 @@ def atoi (s : Bytes) : Option Int :=
   if neg then (if v ≤ 9223372036854775808 then some (-(v : Int)) else none)
   else (if v ≤ 9223372036854775807 then some (v : Int) else none)
 
-/-- bytesToUint16: `uint16(res)` of Atoi — two's-complement truncation, error flag kept -/
+/-- bytesToUint16 (repaired code): `strconv.ParseUint(s, 10, 16)` — digits only, no sign, no
+    wrap-around: the value must fit 16 bits -/
 def bytesToUint16 (s : Bytes) : Option Nat :=
-  match atoi s with
-  | none => none
-  | some v => some (v % 65536).toNat
+  if s.isEmpty || !s.all isDigit then none
+  else if decVal s ≤ 65535 then some (decVal s) else none
 
 def hexDigitVal (c : UInt8) : Option Nat :=
   if 48 ≤ c && c ≤ 57 then some (c.toNat - 48)
@@ -41,18 +41,13 @@ def hexVal' : Bytes → Nat → Option Nat
     | none => none
     | some d => hexVal' r (acc * 16 + d)
 
-/-- parseItag: `uint32(strconv.ParseInt(s, 16, 0))` -/
+/-- parseItag (repaired code): `strconv.ParseUint(s, 16, 32)` — hexadecimal digits only, no sign,
+    the value must fit 32 bits -/
 def parseItag (s : Bytes) : Option Nat :=
-  let (neg, ds) := match s with
-    | 45 :: r => (true, r)
-    | 43 :: r => (false, r)
-    | r => (false, r)
-  if ds.isEmpty then none else
-  match hexVal' ds 0 with
+  if s.isEmpty then none else
+  match hexVal' s 0 with
   | none => none
-  | some v =>
-    if neg then (if v ≤ 9223372036854775808 then some ((-(v : Int)) % 4294967296).toNat else none)
-    else (if v ≤ 9223372036854775807 then some (v % 4294967296) else none)
+  | some v => if v ≤ 4294967295 then some v else none
 
 /-- bytes.Split(data, sep) for a one-byte separator -/
 def splitOn (sep : UInt8) : Bytes → List Bytes
@@ -136,7 +131,9 @@ def FragCtx.finished (c : FragCtx) : Bool := c.index > 0 && c.index == c.len
 /-- parseFragment: body after the prefix, `ix,len,data,` — exactly four parts -/
 def parseFragment (body : Bytes) : Option (Bytes × Nat × Nat) :=
   match splitOn 44 body with
-  | [p0, p1, p2, _] =>
+  | [p0, p1, p2, p3] =>
+    -- repaired code: "k,n,piece," — nothing may follow the comma that ends the piece
+    if !p3.isEmpty then none else
     match bytesToUint16 p0, bytesToUint16 p1 with
     | some ix, some l => some (p2, ix, l)
     | _, _ => none
